@@ -523,6 +523,17 @@ def sample_tree_faults(doc: Any, r: random.Random, k: int) -> list[dict]:
         if r.random() < 0.04 or not ptrs:
             out.append({"t": "tree", "op": "cycle", "what": r.choice(CYCLES)})
             continue
+        if r.random() < 0.06:
+            # bias: the few top-level / info pointers (one in hundreds of a document's nodes) decide how the whole document
+            # is treated (version dispatch, naming); string leaves there get near-miss values half of the time
+            shallow = [q for q in ptrs if len(q) == 1 or q[0] == "info"]
+            if shallow:
+                p = r.choice(shallow)
+                fl = faults_at(doc, p)
+                if isinstance(get_at(doc, p), str) and r.random() < 0.5:
+                    fl = [f for f in fl if f.get("junk") in STR_DYN_JUNK] or fl
+                out.append(r.choice(fl))
+                continue
         # bias: half of the draws land on schema/parameter/response/body loci with targeted junk
         if r.random() < 0.5:
             for _try in range(8):
